@@ -182,12 +182,13 @@ Section PerformSim.
 
   Lemma sim_body a s s' l r prev :
     perform_body react a s = Some (s', l, r) -> inv s -> cur_ok s -> nok10 l = true ->
-    a <> ANormal ->
+    a <> ANormal -> is_direct a = false ->
     exists st, act14 prev a (s_curw s) (s_curh s) = Some st /\
       r <> RNorm /\ run14 nps st l = Some (mp prev (pend_of r s' PSwitch)).
   Proof.
-    intros H I C N Ha.
-    destruct a as [| |q|h cc cn ex|h cc cn|]; cbn [perform_body] in H; [congruence| | | | |].
+    intros H I C N Ha Hd.
+    destruct a as [| |q|h cc cn ex|h cc cn| |hd ccd cnd]; cbn [perform_body] in H;
+      [congruence| | | | | |discriminate].
     - injection H as <- <- <-. eexists. split; [reflexivity|]. split; [discriminate|reflexivity].
     - (* quit_loop: on_quit is delivered to the current world first *)
       eexists. split; [reflexivity|]. unfold quit_fn in H.
@@ -230,14 +231,17 @@ Section PerformSim.
     intros s s' l r H I C N prev p. unfold perform in H.
     apply andthen_inv in H as (s1&l1&r1&E1&H2). injection E1 as <- <- <-.
     destruct H2 as (l2&H2&->). cbn [app] in N |- *.
+    cbn [run14 step14 a_mode a_prev mp is_callback].
     destruct (action_eq_dec a ANormal) as [->|Ha].
-    - cbn [perform_body] in H2. injection H2 as <- <- <-. reflexivity.
-    - destruct (sim_body a _ _ _ _ prev H2 I C N Ha) as (st&A&Rn&Run).
-      cbn [run14 step14 a_mode a_prev mp is_callback].
-      replace (match a with ANormal => Some (mp prev p) | _ => act14 prev a (s_curw s) (s_curh s) end)
-        with (act14 prev a (s_curw s) (s_curh s)) by (destruct a; congruence).
-      rewrite A. rewrite Run.
-      destruct r; [congruence|reflexivity].
+    { cbn [perform_body] in H2. injection H2 as <- <- <-. reflexivity. }
+    destruct (is_direct a) eqn:Hd.
+    { destruct a; try discriminate. cbn [perform_body] in H2. injection H2 as <- <- <-.
+      reflexivity. }
+    destruct (sim_body a _ _ _ _ prev H2 I C N Ha Hd) as (st&A&Rn&Run).
+    replace (act14' (mp prev p) a (s_curw s) (s_curh s))
+      with (act14 prev a (s_curw s) (s_curh s)) by (destruct a; try reflexivity; [congruence|discriminate]).
+    rewrite A. rewrite Run.
+    destruct r; [congruence|reflexivity].
   Qed.
 End PerformSim.
 
@@ -250,9 +254,9 @@ Qed.
 
 Lemma loop_switch_sim n h cc cn s s' l r :
   loop_switch (react_n n) h cc cn s = Some (s', l, r) -> inv s -> nok10 l = true ->
-  forall prev, run14 nps (mp prev PSwitch) l = Some (mp prev (pend_of r s' PSwitch)).
+  forall prev p, run14 nps (mp prev p) l = Some (mp prev (pend_of r s' p)).
 Proof.
-  intros H I N prev. unfold loop_switch in H.
+  intros H I N prev p. unfold loop_switch in H.
   set (s2 := clears h cc cn (set_inh true s)) in *.
   assert (I2 : inv s2) by (apply clears_inv; exact I).
   destruct (handle_call h s2) as [[s3 w] l3] eqn:H3.
@@ -263,14 +267,14 @@ Proof.
   rewrite (handle_call_cached h (set_cur w h s3) w C3) in H.
   apply andthen_inv in H as (s5&l5&r5&E5&H5). injection E5 as <- <- <-.
   destruct H5 as (l6&H6&->). apply nok10_app in N as [_ N].
-  rewrite app_nil_r. rewrite run14_app, (run14_skip_pend l3 prev PSwitch L3).
+  rewrite app_nil_r. rewrite run14_app, (run14_skip_pend l3 prev p L3).
   apply andthen_inv in H6 as (s6&l6'&r6&E6&H7).
   assert (I4 : inv (set_cur w h s3)) by exact I3.
   assert (Nr : nok10 l6' = true).
   { destruct r6; [destruct H7 as (l7&_&->); apply nok10_app in N; apply N
                  |destruct H7 as (_&->&_); exact N]. }
   pose proof (sim_enable_cur (react_n n) (react_n_good n) (react_n_sim n) w _ _ _ _ E6 I4
-                eq_refl (ex_intro _ W3 HW3) Nr prev PSwitch) as S.
+                eq_refl (ex_intro _ W3 HW3) Nr prev p) as S.
   destruct r6 as [|x].
   - destruct H7 as (l7&H7&->). injection H7 as <- <- <-. rewrite app_nil_r. exact S.
   - destruct H7 as (->&->&->). exact S.
@@ -282,7 +286,7 @@ Lemma handler_sim f n : forall h cc cn s s' l r,
 Proof.
   induction n as [|n IH]; intros h cc cn s s' l r H I prev; cbn [handler] in H; [discriminate|].
   destruct (loop_switch (react_n f) h cc cn s) as [[[s1 l1] r1]|] eqn:LS; [|discriminate].
-  pose proof (loop_switch_sim _ _ _ _ _ _ _ _ LS I eq_refl prev) as S1.
+  pose proof (loop_switch_sim _ _ _ _ _ _ _ _ LS I eq_refl prev PSwitch) as S1.
   destruct (loop_switch_post _ _ _ _ _ _ _ _ LS I eq_refl) as (I1&_).
   destruct r1 as [|[| |h2 cc2 cn2 t2]]; try (injection H as <- <- <-; exact S1).
   destruct (handler (react_n f) n h2 cc2 cn2 s1) as [[[s2 l2] r2]|] eqn:Hd; [|discriminate].
@@ -313,6 +317,65 @@ Definition end_mode (r : fres) (s : state) (m : m14) : Prop :=
 Lemma end_mode_of_res r s : r <> RNorm -> end_mode (fres_of r) s (MPend (pend_of r s PSwitch)).
 Proof. destruct r as [|[| |h cc cn t]]; cbn; auto; congruence. Qed.
 
+(* the release a direct switch performs inside a frame: the checker reads it
+   from "in a frame" exactly as it reads it from "an exception is pending",
+   unless nothing is raised, in which case it stays in the frame *)
+Lemma transfer l : forall prev w h dt k a1 a2,
+  run14 nps (mp prev POther) l = Some a1 -> run14 nps (mp prev PSwitch) l = Some a2 ->
+  (a1 = mp prev POther /\ a2 = mp prev PSwitch /\
+   run14 nps {| a_prev := prev; a_mode := MFrame w h dt (S k) |} l
+   = Some {| a_prev := prev; a_mode := MFrame w h dt (S k) |}) \/
+  (a1 = a2 /\ run14 nps {| a_prev := prev; a_mode := MFrame w h dt (S k) |} l = Some a1).
+Proof.
+  induction l as [|e l IH]; intros prev w h dt k a1 a2; cbn [run14].
+  - intros [= <-] [= <-]. left. auto.
+  - destruct e as [| | | |o a cw ch|hh ww|ww ev|out ww hh| |]; cbn [step14 mp a_mode a_prev Nat.ltb Nat.leb];
+      try discriminate.
+    + destruct (is_callback o); [|discriminate].
+      destruct a as [| |q|h1 cc cn ex|h1 cc cn| |hd ccd cnd]; cbn [act14' act14 a_prev mp];
+        try apply IH;
+        intros R1 R2; right; (split; [congruence|exact R1]).
+    + apply IH.
+    + apply IH.
+    + destruct out as [[|]| |]; discriminate.
+Qed.
+
+(* how an iteration goes on after the acting processor *)
+Lemma after14 fuel x rest w h dt pos t s2 l2 r2 s' l r :
+  x = Some (s2, l2, r2) -> inv s2 -> (is_sw r2 = false -> cur_ok s2) ->
+  (forall tail,
+     run14 nps {| a_prev := Some t; a_mode := MFrame w h dt (S pos) |} (l2 ++ tail)
+     = run14 nps {| a_prev := Some t;
+                    a_mode := match r2 with
+                              | RNorm => MFrame w h dt (S pos)
+                              | _ => MPend (pend_of r2 s2 PSwitch)
+                              end |} tail) ->
+  rest = procs w dt (S pos) (np_of nps h - S pos) -> (S pos <= np_of nps h)%nat ->
+  after_action fuel x rest = Some (s', l, r) ->
+  inv s' /\ cur_ok s' /\
+  exists a', run14 nps {| a_prev := Some t; a_mode := MFrame w h dt (S pos) |} l = Some a' /\
+             a_prev a' = Some t /\ end_mode r s' (a_mode a').
+Proof.
+  intros -> I2 C2 Run -> Hpos. unfold after_action.
+  destruct r2 as [|[| |h2 cc2 cn2 t2]].
+  - st_inv. split; [exact I2|]. split; [exact (C2 eq_refl)|].
+    rewrite Run, run14_procs. eexists. split; [reflexivity|]. split; [reflexivity|].
+    right. exists w, h, dt. cbn. f_equal. lia.
+  - st_inv. split; [exact I2|]. split; [exact (C2 eq_refl)|].
+    rewrite <- (app_nil_r l2), Run. cbn [run14]. eexists. split; [reflexivity|].
+    split; reflexivity.
+  - st_inv. split; [exact I2|]. split; [exact (C2 eq_refl)|].
+    rewrite <- (app_nil_r l2), Run. cbn [run14]. eexists. split; [reflexivity|].
+    split; reflexivity.
+  - destruct (handler (react_n fuel) fuel h2 cc2 cn2 s2) as [[[s3 l3] r3]|] eqn:LS; [|discriminate].
+    st_inv. destruct (handler_post _ _ _ _ _ _ _ _ _ LS I2) as (I3&C3&Ns3).
+    split; [exact I3|]. split; [exact C3|]. rewrite Run. cbn [pend_of].
+    change {| a_prev := Some t; a_mode := MPend PSwitch |} with (mp (Some t) PSwitch).
+    rewrite (handler_sim _ _ _ _ _ _ _ _ _ LS I2 (Some t)).
+    eexists. split; [reflexivity|]. split; [reflexivity|]. cbn [a_mode mp].
+    destruct r3 as [|x3]; [left; reflexivity|]. apply end_mode_of_res. discriminate.
+Qed.
+
 Lemma frame14 fuel last f s s' l r a :
   ready (a_mode a) -> a_prev a = last -> inv s -> cur_ok s ->
   frame_origin_ok f = true ->
@@ -330,73 +393,86 @@ Proof.
   assert (Hnp : (1 <= np)%nat) by (apply np_of_pos; exact Hnps).
   assert (Hpos : (S pos <= np)%nat) by (apply eff_pos_lt; exact Hnp).
   set (head := EClock (f_t f) (s_curw s) (s_curh s) :: procs (s_curw s) dt 0 (S pos)).
-  assert (Head : forall rest,
-    run14 nps a (head ++ lp ++ rest)
-    = run14 nps {| a_prev := Some (f_t f);
-                   a_mode := MFrame (s_curw s) (s_curh s) dt (S pos) |} rest).
+  set (fm := {| a_prev := Some (f_t f); a_mode := MFrame (s_curw s) (s_curh s) dt (S pos) |}).
+  assert (Head : forall rest, run14 nps a (head ++ lp ++ rest) = run14 nps fm rest).
   { intros rest. unfold head. cbn [app run14].
     rewrite (ready_clock a (EClock (f_t f) (s_curw s) (s_curh s)) Rd Logic.I).
     cbn [clock14]. rewrite Hp. fold dt.
     rewrite run14_app, run14_procs. cbn [Nat.add].
     rewrite run14_app, (run14_skip_frame lp _ _ _ _ _ Lp). reflexivity. }
-  destruct (action_eq_dec (f_act f) ANormal) as [En|Ha].
-  - rewrite En. st_inv. intros _. split; [exact I1|]. split; [exact C1|].
-    rewrite Head, run14_procs. eexists. split; [reflexivity|]. split; [reflexivity|].
-    right. exists (s_curw s), (s_curh s), dt. cbn. f_equal. fold np. lia.
-  - assert (Hm : forall X Y : option (state * list entry * fres),
-              match f_act f with ANormal => X | _ => Y end = Y).
-    { intros X Y. destruct (f_act f); congruence. }
-    rewrite Hm. clear Hm.
+  (* both kinds of acting processor end in after_action *)
+  assert (Fin : forall x s2 l2 r2,
+    x = Some (s2, l2, r2) -> inv s2 -> (is_sw r2 = false -> cur_ok s2) ->
+    (forall tail, run14 nps fm (l2 ++ tail)
+       = run14 nps {| a_prev := Some (f_t f);
+                      a_mode := match r2 with
+                                | RNorm => MFrame (s_curw s) (s_curh s) dt (S pos)
+                                | _ => MPend (pend_of r2 s2 PSwitch)
+                                end |} tail) ->
+    prefix (head ++ lp)
+           (after_action fuel x (procs (s_curw s) dt (S pos) (np - S pos))) = Some (s', l, r) ->
+    inv s' /\ cur_ok s' /\
+    exists a', run14 nps a l = Some a' /\ a_prev a' = Some (f_t f) /\ end_mode r s' (a_mode a')).
+  { intros x s2 l2 r2 Ex I2 C2 Run. unfold prefix.
+    destruct (after_action fuel x (procs (s_curw s) dt (S pos) (np - S pos)))
+      as [[[s3 l3] r3]|] eqn:AA; [|discriminate].
+    st_inv.
+    destruct (after14 fuel x (procs (s_curw s) dt (S pos) (np - S pos)) (s_curw s) (s_curh s) dt
+                pos (f_t f) s2 l2 r2 s3 l3 r3 Ex I2 C2 Run eq_refl Hpos AA)
+      as (I3&C3&a'&R'&P'&M').
+    split; [exact I3|]. split; [exact C3|]. exists a'. rewrite <- app_assoc, Head. auto. }
+  assert (StepAct : forall a0 st rest,
+    a0 <> ANormal -> act14' fm a0 (s_curw s) (s_curh s) = Some st ->
+    run14 nps fm (EAct (f_org f) a0 (s_curw s1) (s_curh s1) :: rest) = run14 nps st rest).
+  { intros a0 st rest Hn A. cbn [run14 step14 a_mode a_prev fm Nat.ltb Nat.leb].
+    unfold frame_origin_ok in Fo. apply negb_true_iff in Fo. rewrite Fo, Fw, Fh, !Z.eqb_refl.
+    cbn [andb]. fold fm. replace (match a0 with ANormal => None | _ => act14' fm a0 (s_curw s) (s_curh s) end)
+      with (act14' fm a0 (s_curw s) (s_curh s)) by (destruct a0; congruence).
+    now rewrite A. }
+  assert (Other : f_act f <> ANormal -> is_direct (f_act f) = false ->
+    prefix (head ++ lp)
+      (after_action fuel (perform (react_n fuel) (f_org f) (f_act f) s1)
+                    (procs (s_curw s) dt (S pos) (np - S pos))) = Some (s', l, r) ->
+    nok10 l = true ->
+    inv s' /\ cur_ok s' /\
+    exists a', run14 nps a l = Some a' /\ a_prev a' = Some (f_t f) /\ end_mode r s' (a_mode a')).
+  { intros Ha Hd E _.
     destruct (perform (react_n fuel) (f_org f) (f_act f) s1) as [[[s2 l2] r2]|] eqn:Pf;
       [|discriminate].
-    (* the scripted action is announced, then performed *)
-    assert (K : nok10 l2 = true ->
-      inv s2 /\ s_curw s2 = s_curw s /\ s_curh s2 = s_curh s /\
-      (is_sw r2 = false -> cur_ok s2) /\ r2 <> RNorm /\
-      forall rest,
-        run14 nps {| a_prev := Some (f_t f); a_mode := MFrame (s_curw s) (s_curh s) dt (S pos) |}
-              (l2 ++ rest)
-        = run14 nps (mp (Some (f_t f)) (pend_of r2 s2 PSwitch)) rest).
-    { intros N2.
-      pose proof (good_perform (react_n fuel) (react_n_good fuel) _ _ _ _ _ _ Pf I1 C1 N2)
-        as (I2&Fw2&Fh2&_&_&C2&_).
-      unfold perform in Pf.
-      apply andthen_inv in Pf as (s0&l0&r0&E0&Pb). injection E0 as <- <- <-.
-      destruct Pb as (l2'&Pb&->). cbn [app] in N2.
-      destruct (sim_body (react_n fuel) (react_n_good fuel) (react_n_sim fuel) _ _ _ _ _
-                  (Some (f_t f)) Pb I1 C1 N2 Ha) as (st&A&Rn&Run).
-      split; [exact I2|]. split; [congruence|]. split; [congruence|]. split; [exact C2|].
-      split; [exact Rn|]. intros rest.
-      cbn [app run14 step14 a_mode a_prev Nat.ltb Nat.leb].
-      unfold frame_origin_ok in Fo. rewrite Fo, Fw, Fh, !Z.eqb_refl. cbn [andb].
-      rewrite Fw, Fh in A. rewrite A. rewrite run14_app, Run. reflexivity. }
-    assert (Plain : forall x2, r2 = RExn x2 -> is_sw r2 = false ->
-              Some (s2, head ++ lp ++ l2, fres_of r2) = Some (s', l, r) -> nok10 l = true ->
-              inv s' /\ cur_ok s' /\
-              exists a', run14 nps a l = Some a' /\ a_prev a' = Some (f_t f) /\
-                         end_mode r s' (a_mode a')).
-    { intros x2 E2 Ns. st_inv. intros N.
-      apply nok10_app in N as [_ N]. apply nok10_app in N as [_ N].
-      destruct (K N) as (I2&_&_&C2&Rn&Run).
-      split; [exact I2|]. split; [exact (C2 Ns)|].
-      rewrite Head. rewrite <- (app_nil_r l2), Run. cbn [run14].
-      eexists. split; [reflexivity|]. split; [reflexivity|]. cbn [a_mode mp].
-      apply end_mode_of_res. exact Rn. }
-    destruct r2 as [|[| |h cc cn tag]].
-    + st_inv. intros N. apply nok10_app in N as [_ N]. apply nok10_app in N as [_ N].
-      destruct (K N) as (_&_&_&_&Rn&_). congruence.
-    + apply (Plain XQuit); reflexivity.
-    + apply (Plain XOther); reflexivity.
-    + destruct (handler (react_n fuel) fuel h cc cn s2) as [[[s3 l3] r3]|] eqn:LS; [|discriminate].
-      st_inv. intros N.
-      apply nok10_app in N as [_ N]. apply nok10_app in N as [_ N]. apply nok10_app in N as [N2 N3].
-      destruct (K N2) as (I2&_&_&_&_&Run).
-      destruct (handler_post _ _ _ _ _ _ _ _ _ LS I2) as (I3&C3&Ns3).
-      split; [exact I3|]. split; [exact C3|].
-      rewrite Head, Run. cbn [pend_of].
-      rewrite (handler_sim _ _ _ _ _ _ _ _ _ LS I2 (Some (f_t f))).
-      eexists. split; [reflexivity|]. split; [reflexivity|]. cbn [a_mode mp].
-      destruct r3 as [|x3]; [left; reflexivity|]. apply end_mode_of_res. discriminate.
+    pose proof (good_perform (react_n fuel) (react_n_good fuel) _ _ _ _ _ _ Pf I1 C1 eq_refl)
+      as (I2&Fw2&Fh2&_&_&C2&_).
+    unfold perform in Pf.
+    apply andthen_inv in Pf as (s0&l0&r0&E0&Pb). injection E0 as <- <- <-.
+    destruct Pb as (l2'&Pb&->).
+    destruct (sim_body (react_n fuel) (react_n_good fuel) (react_n_sim fuel) _ _ _ _ _
+                (Some (f_t f)) Pb I1 C1 eq_refl Ha Hd) as (st&A&Rn&Run).
+    refine (Fin _ _ _ _ eq_refl I2 C2 _ E).
+    intros tail. cbn [app]. rewrite (StepAct (f_act f) st); [|exact Ha|].
+    - rewrite run14_app, Run. destruct r2; [congruence|reflexivity].
+    - rewrite <- Fw, <- Fh. destruct (f_act f); try congruence; try discriminate; exact A. }
+  destruct (f_act f) as [| |q|h cc cn ex|h cc cn| |hd ccd cnd] eqn:Ea; cbv beta iota;
+    try (apply Other; [discriminate|reflexivity]).
+  - (* nothing *)
+    st_inv. intros _. split; [exact I1|]. split; [exact C1|].
+    rewrite Head. unfold fm. rewrite run14_procs. eexists. split; [reflexivity|].
+    split; [reflexivity|]. right. exists (s_curw s), (s_curh s), dt. cbn. f_equal. fold np. lia.
+  - (* a direct switch inside the frame *)
+    intros E _.
+    destruct (direct fuel (f_org f) hd ccd cnd s1) as [[[s2 l2] r2]|] eqn:D; [|discriminate].
+    unfold direct in D.
+    apply andthen_inv in D as (s0&l0&r0&E0&LS). injection E0 as <- <- <-.
+    destruct LS as (l2'&LS&->).
+    destruct (loop_switch_post _ _ _ _ _ _ _ _ LS I1 eq_refl) as (I2&C2&_).
+    refine (Fin _ _ _ _ eq_refl I2 C2 _ E).
+    intros tail. cbn [app]. rewrite (StepAct (ADirect hd ccd cnd) fm); [|discriminate|reflexivity].
+    rewrite run14_app.
+    pose proof (loop_switch_sim _ _ _ _ _ _ _ _ LS I1 eq_refl (Some (f_t f)) POther) as R1.
+    pose proof (loop_switch_sim _ _ _ _ _ _ _ _ LS I1 eq_refl (Some (f_t f)) PSwitch) as R2.
+    destruct (transfer l2' (Some (f_t f)) (s_curw s) (s_curh s) dt pos _ _ R1 R2)
+      as [(A1&A2&Rf)|(A12&Rf)]; fold fm in Rf; rewrite Rf.
+    + destruct r2 as [|[| |h2 cc2 cn2 t2]]; try reflexivity; cbn [pend_of] in A1, A2; discriminate.
+    + destruct r2 as [|[| |h2 cc2 cn2 t2]]; cbn [pend_of] in A12 |- *;
+        try discriminate; reflexivity.
 Qed.
 
 Lemma frames14 fuel ek fs : forall last s s' l r a,
@@ -479,6 +555,7 @@ Theorem accepts_holds14 (c : rcase) :
 Proof.
   unfold wf_b, known14_b, any_entry, accepts, holds14, holds14_b. intros W K A.
   apply andb_prop in W as [W _]. apply andb_prop in W as [W Wf]. apply andb_prop in W as [Wn Wt].
+  apply andb_prop in Wn as [_ Wn].
   apply (ops14 (c_nps c) Wn (c_ops c) init); auto.
   apply inv_init.
 Qed.
@@ -539,11 +616,17 @@ Proof.
       apply Nat.eqb_eq in Q2. subst k. intros [= <-]. unfold phi, prevval, pend. cbn.
       split; auto. destruct p; cbn; lia.
     + intros [= <-]. split; auto. unfold phi. cbn. lia.
-    + destruct (Nat.ltb 0 k && negb (is_callback o) && (w0 =? w) && (h0 =? h)) eqn:Q; [|discriminate].
-      destruct k; [discriminate|].
-      unfold act14. destruct a0; try discriminate; intros [= <-]; unfold phi, prevval, pend; cbn;
-        split; auto; lia.
-    + intros H. apply K in H as [H _]. discriminate.
+    + destruct k; [discriminate|]. cbn [Nat.ltb Nat.leb].
+      assert (A' : forall w1 h1, act14' {| a_prev := prev; a_mode := MFrame w h dt (S k) |} a0 w1 h1
+                                 = Some a' ->
+                   a_prev a' = prev /\ phi a' = phi {| a_prev := prev; a_mode := MFrame w h dt (S k) |} + 0).
+      { intros w1 h1. unfold act14', act14. cbn [a_prev].
+        destruct a0; try discriminate; intros [= <-]; unfold phi, prevval, pend; cbn;
+          split; auto; lia. }
+      destruct (is_callback o); [apply A'|].
+      destruct ((w0 =? w) && (h0 =? h)); [|discriminate].
+      destruct a0; try discriminate; apply A'.
+    + intros [= <-]. split; auto. unfold phi. cbn. lia.
     + intros [= <-]. split; auto. unfold phi. cbn. lia.
     + intros H. apply K in H as [H _]. discriminate.
     + intros H. apply K in H as [H _]. discriminate.
@@ -554,7 +637,7 @@ Proof.
       split; [exact A|]. split; [reflexivity|exact B].
     + destruct p; try discriminate. intros H.
       apply (clock14_phi _ _ _ (MPend PSwitch) H Logic.I).
-    + destruct (is_callback o); [|discriminate]. unfold act14.
+    + destruct (is_callback o); [|discriminate]. unfold act14', act14. cbn [a_prev].
       destruct a0; try discriminate; intros [= <-]; unfold phi, prevval, pend; cbn; split; auto; lia.
     + intros [= <-]. split; auto. unfold phi. cbn. lia.
     + intros [= <-]. split; auto. unfold phi. cbn. lia.
